@@ -583,6 +583,11 @@ def run_check(check_id: str, tier: str, seed: int, jobs: int | None = None, only
         "explanation": getattr(mod, "EXPLANATION", ""),
         "harness_errors": harness_errors[:10],
     }
+    if hasattr(mod, "coverage_extra"):
+        try:
+            coverage.update(mod.coverage_extra([r for r in case_results if r and r.get("status") == "done"]))
+        except Exception as e:  # noqa: BLE001
+            coverage["coverage_extra_error"] = str(e)
     ev = {
         "property_id": check_id,
         "tier": tier,
